@@ -143,6 +143,7 @@ FLAGS = ("simplify", "break_equivalences", "decomposition")
 
 def rule_flag_reads(ctx):
     fx = ctx.facts
+    _FX[0] = fx
     n_reads = 0
     for b in fx.body_list:
         if b["body"].get("mac", "").startswith("#"):
@@ -164,6 +165,7 @@ def rule_flag_reads(ctx):
     rule_main_flags(ctx)
 
 
+_FX = [None]
 ITER_GLUE = {"Vec::push", "Vec::extend", "AnnotatedFormula::into_problem_formula", "Iterator::map", "Iterator::collect", "IntoIterator::into_iter", "Iterator::flat_map",
              "slice::into_vec", "Iterator::chain", "iter::once"}
 
@@ -186,8 +188,8 @@ def classify_read(b, pm, n, flag, depth=0):
                 kinds = [classify_read(b, pm, u, flag, depth + 1) for u in uses]
                 kind = ("copy `%s`: %s" % (p["pat"].get("name"), sorted(set(kinds)))) if uses and all(k_ is not None for k_ in kinds) else None
             elif p.get("k") == "If" and p.get("cond") is cur:
-                then_c = set(flow.callees_in(flow.summ(p["then"])))
-                else_c = set(flow.callees_in(flow.summ(p["else"]))) if "else" in p else set()
+                then_c = set(flow.expand_helpers(_FX[0], flow.callees_in(flow.summ(p["then"]))))
+                else_c = set(flow.expand_helpers(_FX[0], flow.callees_in(flow.summ(p["else"])))) if "else" in p else set()
                 if flag == "simplify":
                     ok_g = then_c <= {"Iterator::map", "Apply::apply_fixpoint", "Apply::apply", "Compose::compose", "slice::concat"} and "Apply::apply_fixpoint" in then_c and not else_c \
                         and p.get("ty") == "()"
